@@ -9,8 +9,9 @@ WellA(x) == /\ (~x.spec => (x.type = "" /\ x.ttl = -1 /\ x.tmpl = "absent"))
             /\ (x.tmpl = "absent" => (x.att = -1 /\ x.pt = -1 /\ x.par = "absent" /\ x.pod = "absent"))
             /\ (x.tmpl = "present" => x.pod # "absent")                 \* taskTemplate is required when a template is given
             /\ (x.op = "UPDATE" => x.spec)
-FamB == {[fam |-> "B", cfgname |-> cn, policy |-> po, optval |-> ov, subst |-> su, substctx |-> sc, fin |-> fin, label |-> lb, owntmpl |-> ot, otheruid |-> ou] :
-            cn \in {"missing", "jc1"}, po \in {"", "sa", "Allow", "Enqueue"}, ov \in Bools, su \in Bools, sc \in Bools, fin \in {"none", "x"}, lb \in Bools, ot \in Bools, ou \in Bools}
+\* tmpluid: the JobConfig's template labels carry the reserved JobConfig-UID key with another JobConfig's UID (template metadata copied from a Job)
+FamB == {[fam |-> "B", cfgname |-> cn, policy |-> po, optval |-> ov, subst |-> su, substctx |-> sc, fin |-> fin, label |-> lb, owntmpl |-> ot, otheruid |-> ou, tmpluid |-> tu] :
+            cn \in {"missing", "jc1"}, po \in {"", "sa", "Allow", "Enqueue"}, ov \in Bools, su \in Bools, sc \in Bools, fin \in {"none", "x"}, lb \in Bools, ot \in Bools, ou \in Bools, tu \in Bools}
 FamC == {[fam |-> "C", op |-> op, old |-> o, new |-> n, lu |-> lu] : op \in {"CREATE", "UPDATE"}, o \in {"none", "s1", "s2", "s1off"}, n \in {"none", "s1", "s2", "s1off"}, lu \in {"unset", "past", "future"}}
 WellC(x) == (x.op = "CREATE" => x.old = "none") /\ (x.new = "none" => x.lu = "unset")
 FamU == {[fam |-> "U", field |-> f, changed |-> ch, started |-> st, killpassed |-> kp, how |-> how] :
